@@ -270,6 +270,76 @@ def check(run: Run) -> None:
                             "binding map or a copy of it", loc=fa.loc(c))
         run.sites(n, 7, "pattern matches in try_match")
 
+    with run.obligation("C19.h", "K7", "matching is the inverse of resolution: for every pattern kind, each pattern field that ts_pattern_resolve uses to BUILD the "
+                        "concrete type is also constrained by ts_pattern_match for that kind (otherwise a candidate matches arguments of a type it does not "
+                        "denote)"):
+        def case_fields(fa):
+            cn_ = R.aliases_of(fa)
+            out_ = {}
+            for sw in R.find(fa, lambda n: isinstance(n, C.Switch)):
+                labels = []
+                fresh = True
+                for st in (sw.body.stmts if isinstance(sw.body, C.Block) else []):
+                    if isinstance(st, C.Case):
+                        if not fresh:
+                            labels = []
+                        fresh = True
+                        labels.append(cn_(st.value).split("::")[-1] if st.value is not None else "default")
+                        for lb in labels:
+                            out_.setdefault(lb, set())
+                        continue
+                    fresh = False
+                    names = {m.name for m in st.walk() if isinstance(m, C.Member) and cn_(m.obj) == "pattern"}
+                    # the whole pattern handed to a helper of this file: the helper's uses count (one level)
+                    for c in R.calls(st):
+                        if not any(cn_(a) == "pattern" for a in c.args):
+                            continue
+                        for hfd in run.tree.funcs(PAT, R.callee_name(c).split("::")[-1]):
+                            if hfd.body is None or hfd.name in ("ts_pattern_match", "ts_pattern_resolve"):
+                                continue
+                            hfa = R.parse(run, hfd, strict=False)
+                            pn = [nm for ty, nm in hfa.params if "TypePattern" in ty]
+                            if pn:
+                                names |= {m.name for m in hfa.body.walk() if isinstance(m, C.Member) and R.Canon()(m.obj) == pn[0]}
+                    for lb in labels:
+                        out_.setdefault(lb, set()).update(names)
+            return out_
+        fm = case_fields(R.fn(run, PAT, "ts_pattern_match"))
+        fr = case_fields(R.fn(run, PAT, "ts_pattern_resolve"))
+        kinds = [k for k in fr if k in fm and k != "default"]
+        run.sites(len(kinds), 6, "pattern kinds handled by both")
+        for k in sorted(kinds):
+            run.count(1, "C19.h." + k)
+            missing = sorted(f for f in fr[k] - fm[k] if f not in ("name",) or "name" not in fm[k])
+            if missing:
+                run.finding("C19.h", f"ts_pattern_match:{k}:ignores:{','.join(missing)}", f"ts_pattern_resolve builds a {k} type from pattern.{{{', '.join(sorted(fr[k]))}}} but "
+                            f"ts_pattern_match does not constrain pattern.{{{', '.join(missing)}}} for that kind: arguments that differ only there match the pattern", loc=PAT)
+
+    with run.obligation("C19.i", "K2+K6", "every parameter filled from a DEFAULT (a value default or a None default of a time-series input alike) makes the candidate "
+                        "one step less specific: normalize_call counts each default it materialises and resolve seeds the rank adjustment with that count"):
+        fds = [f for f in t.funcs(DISP, "normalize_call") if f.body is not None]
+        run.sites(len(fds), 1, "normalize_call")
+        fa = R.parse(run, fds[0])
+        cn = R.aliases_of(fa)
+        fl = R.flow(run, fa)
+        blk = [s0 for s0 in fa.body.walk() if isinstance(s0, C.If) and cn(s0.cond).replace(" ", "").endswith("default_value.has_value()") and
+               not cn(s0.cond).replace(" ", "").startswith("!")]
+        run.count(1, "C19.i.count")
+        fills = [n for n in fl.cfg.nodes if n.kind == "stmt" and any(l.startswith("filled[") for l, r in n.stores) and blk and R._contains(blk[0].then, n.ast)]
+        inc = R.store_is(r"out\.defaults_used", r"\+\+|.*\+1")
+        if not blk or not fills:
+            raise AnalysisError("anchor-vanished", "normalize_call: default materialisation block")
+        w = fl.reach([st for st in fl.succ if st[0] in {n.id for n in fills}], avoid=inc,
+                     targets=lambda x: (x.kind == "stmt" and x.label.strip() == "continue") or x.kind == "loop-head" or x.id == fl.cfg.exit)
+        if w is not None:
+            run.finding("C19.i", "normalize_call:default-not-counted", "a parameter is filled from its default without counting it in defaults_used: the overload is "
+                        "ranked as if the caller had supplied the argument and ties with / beats a sibling that needs no default: " + fl.path_text(w),
+                        loc=fl.cfg.describe(w[0][0]))
+        fa2 = _resolve(run)
+        d = R.find(fa2, lambda n: isinstance(n, C.Declarator) and n.name == "rank_adjustment")
+        if not d or R.aliases_of(fa2)(d[0].init).replace(" ", "") != "call.defaults_used":
+            run.finding("C19.i", "resolve:rank-seed", "the rank adjustment of a candidate must start at the number of defaults its normalised call used", loc=DISP)
+
 
 def _enum(run, rel, struct):
     fi = run.tree.file(rel)
@@ -280,6 +350,8 @@ def _enum(run, rel, struct):
 
 
 VARIANTS = [
+    {"id": "i-none-default-not-counted", "expect": "C19.i", "edits": [{"file": DISP, "find": "                        synthesised.scalar_meta  = synthesised.scalar_value.schema();\n                    }\n                    filled[p] = std::move(synthesised);\n                    ++out.defaults_used;", "replace": "                        synthesised.scalar_meta  = synthesised.scalar_value.schema();\n                        ++out.defaults_used;\n                    }\n                    filled[p] = std::move(synthesised);"}]},
+    {"id": "h-tsw-match-ignores-min-period", "expect": "C19.h", "edits": [{"file": PAT, "find": "                       (!concrete->is_duration_based() && pattern.fixed_size == concrete->period() &&\n                        pattern.min_size == concrete->min_period());", "replace": "                       (!concrete->is_duration_based() && pattern.fixed_size == concrete->period());"}]},
     {"id": "b-partial-sort-head-only", "expect": "C19.b", "edits": [{"file": DISP, "find": "        std::stable_sort(survivors.begin(), survivors.end(),\n                         [](const Survivor &a, const Survivor &b) { return a.rank < b.rank; });", "replace": "        std::partial_sort(survivors.begin(), survivors.begin() + 1, survivors.end(),\n                          [](const Survivor &a, const Survivor &b) { return a.rank < b.rank; });"}]},
     {"id": "g-tail-scope-empty", "expect": "C19.g", "edits": [{"file": DISP, "find": "                    ResolutionMap tail_scope = map;", "replace": "                    ResolutionMap tail_scope;"}]},
     {"id": "a-first-match-wins", "expect": "C19.a", "edits": [{"file": DISP, "find": "                survivors.push_back({&impl, std::move(map), std::move(call), impl.rank + rank_adjustment});\n", "replace": "                survivors.push_back({&impl, std::move(map), std::move(call), impl.rank + rank_adjustment});\n                if (impl.rank == 0) { break; }\n"}]},
